@@ -42,7 +42,7 @@ TIERS = {
 }
 
 OBSERVE_OPS = ["touch", "contains", "keys", "glyphorder", "glyphset", "bestcmap", "tabledata", "save", "savexml", "deepcopy", "revmap", "ensure_table"]
-EDIT_OPS = ["name", "rev", "os2", "hmtx", "cmap", "glyfshift", "deltable", "opaque", "reorder", "scale", "subset", "instantiate", "cffwidth", "gposvalue"]
+EDIT_OPS = ["name", "rev", "os2", "hmtx", "vmtx", "headflags", "cmap", "glyfshift", "deltable", "opaque", "reorder", "scale", "subset", "instantiate", "cffwidth", "gposvalue"]
 BIG_EDITS = ("reorder", "scale", "subset", "instantiate")
 
 
@@ -424,6 +424,24 @@ def apply_edit(font, name, a):
             g = _sel(go, k)
             adv, lsb = font["hmtx"][g]
             font["hmtx"][g] = ((adv + 1 + k % 7) % 60000, lsb)
+        return font
+    if name == "vmtx":
+        # (every third pick is the last glyph: changes the number of long metrics)
+        if "vmtx" in font:
+            go = font.getGlyphOrder()
+            g = go[-1] if k % 3 == 0 else _sel(go, k)
+            adv, tsb = font["vmtx"][g]
+            font["vmtx"][g] = ((adv + 1 + k % 7) % 60000, tsb)
+        elif "hmtx" in font:
+            go = font.getGlyphOrder()
+            adv, lsb = font["hmtx"][go[-1]]
+            font["hmtx"][go[-1]] = ((adv + 1 + k % 7) % 60000, lsb)
+        return font
+    if name == "headflags":
+        # bit 11: "font data is lossless as a result of an optimizing transformation" (what a trip
+        # through WOFF2 leaves behind); bits 1, 3: common hinting-related flags
+        if "head" in font:
+            font["head"].flags ^= (1 << 11, 1 << 11, 1 << 3, 1 << 1)[k % 4]
         return font
     if name == "cmap":
         if "cmap" in font:
